@@ -733,7 +733,7 @@ def rule_G(ctx):
             res = fn['__name__']('match')(first, track_of(t2), modes[mode_name], p_arg, dim, False, plot)
         except orders.Unsupported as ex:
             raise shape_error('match not interpretable: %s' % ex, fm.loc())
-        except (ZeroDivisionError, IndexError, KeyError, TypeError, AttributeError, ValueError, orders.Raised, RecursionError) as ex:
+        except orders.PROGRAM_ERRORS as ex:
             found.setdefault('fails', ('match does not fail', dict(case, exception='%s: %s' % (type(ex).__name__, str(ex)[:160]))))
             return None
         score = res.fields.get('score') if isinstance(res, orders.Obj) else None
